@@ -14,7 +14,12 @@
   * the caller presets Method, Recipient or InResponseTo of the confirmation in `farg=`: that field is
     the caller's; every field NOT preset must be the default (the expiry is never the caller's);
   * `status=`: silent (only the end-to-end precondition asks for Success);
-  * no Response is created at all (an exception leaves create_authn_response).
+  * no Response is created at all (an exception leaves create_authn_response);
+  * an assertion inside `<Advice>` (PEFIM's attribute assertion): scoped like the assertion that carries it
+    (issuer, audience, validity, expiry of a confirmation); Recipient / InResponseTo may be absent; whether it
+    is signed or encrypted is not this property's business (C16);
+  * a Response without any assertion (an error Response): it must name the provider, answer the request, not
+    claim Success and be signed as demanded — and the receiving SP must not take identity from it.
 -/
 import PysamlModel.Model.Idp
 
@@ -169,6 +174,40 @@ def specFormat (d : Defaults) (cfg : Cfg) (a : Args W) (out : Except Refusal (Is
   | .error _ => true
   | .ok r => r.assertions.all fun x => formatOk d cfg a x.nameId
 
+/-! ### advice assertions and error Responses (`Idp.issue`) -/
+
+/-- One confirmation of an advice assertion: expiry as for the assertion itself; Recipient / InResponseTo absent,
+    or the consumer URL / request ID, or the caller's (preset). -/
+def adviceConfOk (a : Args W) (life : Int) (c : Conf) : Bool :=
+  (preset a (·.recipient) || c.recipient.all (· == a.destination)) &&
+  (preset a (·.irt) || c.irt.all (· == a.inResponseTo)) &&
+  c.nooa == some (a.now + life)
+
+def adviceOk (d : Defaults) (cfg : Cfg) (a : Args W) (x : AdviceAssertion W) : Bool :=
+  let life := lifetimeOf d cfg a
+  x.issuer == some cfg.entityId &&
+  x.audiences == [[a.spEntityId]] &&
+  x.confs.all (adviceConfOk a life) &&
+  x.condNooa == some (a.now + life) &&
+  (match x.condNb with | some t => decide (t ≤ a.now) | none => true)
+
+/-- An error Response: no assertion; issuer, IssueInstant, InResponseTo, a status that is not Success, and the
+    Response signature exactly as demanded. -/
+def errorResponseOk (cfg : Cfg) (a : Args W) (r : Issued W) : Bool :=
+  r.issuer == some cfg.entityId && r.issueInstant == a.now && r.inResponseTo == some a.inResponseTo &&
+  r.statusTop != successUri && signaturesOk cfg a r
+
+/-- `specCore` widened to what `Idp.issue` may produce. -/
+def specCoreX (d : Defaults) (cfg : Cfg) (a : Args W) (out : Except Refusal (Issued W)) : Bool :=
+  match out with
+  | .error _ => true
+  | .ok r =>
+    if r.assertions.isEmpty then errorResponseOk cfg a r
+    else specCore d cfg a out && r.assertions.all fun x => x.advice.all (adviceOk d cfg a)
+
+def specScopingX (d : Defaults) (cfg : Cfg) (a : Args W) (out : Except Refusal (Issued W)) : Bool :=
+  specCoreX d cfg a out && specFormat d cfg a out
+
 /-- The first sentence of the property. -/
 def specScoping (d : Defaults) (cfg : Cfg) (a : Args W) (out : Except Refusal (Issued W)) : Bool :=
   specCore d cfg a out && specFormat d cfg a out
@@ -187,6 +226,14 @@ def whyScoping (d : Defaults) (cfg : Cfg) (a : Args W) (out : Except Refusal (Is
         (match x.condNb with | some t => decide (t ≤ a.now) | none => true)) then [] else ["conditions-window"]) ++
     (if signaturesOk cfg a r then [] else ["signature"]) ++
     (if specFormat d cfg a out then [] else ["format"])
+
+def whyScopingX (d : Defaults) (cfg : Cfg) (a : Args W) (out : Except Refusal (Issued W)) : List String :=
+  match out with
+  | .error _ => []
+  | .ok r =>
+    if r.assertions.isEmpty then (if errorResponseOk cfg a r then [] else ["error-response"])
+    else whyScoping d cfg a out ++
+      (if r.assertions.all (fun x => x.advice.all (adviceOk d cfg a)) then [] else ["advice"])
 
 /-! ### the second sentence: a service provider built from the same metadata accepts it -/
 
@@ -236,5 +283,18 @@ def specE2E {L : Type} [BEq L] (d : Defaults) (cfg : Cfg) (a : Args W) (s : SpSi
       o.notOnOrAfter == expectedExpiry d cfg a &&
       ava == some released
     | _ => false
+
+/-- The identifier store can be read, or the caller hands the identifier in. -/
+def storeUsable (a : Args W) : Bool := !a.storeFails || a.nameId.isSome
+
+/-- The second sentence for `Idp.issue`: an assertion-less Response never yields identity; when the IdP's
+    identifier store is usable, `specE2E`. -/
+def specE2EX {L : Type} [BEq L] (d : Defaults) (cfg : Cfg) (a : Args W) (s : SpSide) (released : L)
+    (out : Except Refusal (Issued W)) (spOut : Option (Sp.Outcome × Option L)) : Bool :=
+  match out with
+  | .error _ => true
+  | .ok r =>
+    (!r.assertions.isEmpty || (match spOut with | some (.identity _, _) => false | _ => true)) &&
+    (!storeUsable a || specE2E d cfg a s released out spOut)
 
 end C09
